@@ -3,6 +3,7 @@ C03 — Equality is a coherent equivalence that agrees with hashing and sets.
 
 Property theorems only; helper lemmas live in `CtyModel/Lemmas`.
 -/
+import CtyModel.Lemmas.d03Rules
 import CtyModel.Lemmas.SetRefineRun
 import CtyModel.Lemmas.ValEqRules
 import CtyModel.Lemmas.ValEqSymm
@@ -244,6 +245,29 @@ theorem unlawful_rules_counterexample :
     have := set_no_two_equivalent_members h 0 1 (by decide) (by decide)
     revert this
     decide
+
+/-! ### iteration order: the converse direction (d03, audit item 1) -/
+
+/-- Clause *"iterates in an order that depends only on its members"*, converse
+direction.  `values_order_indep_of_total` is an implication (total ⇒ order
+independent, for all sets).  The converse is true where insertion order can show
+at all — between two inequivalent values of ONE bucket (members of different
+buckets are laid out by bucket id, whatever `less` says): the two sets built
+from `x, y` and from `y, x` iterate alike **iff** `less` orders the two values. -/
+theorem values_order_indep_pair_iff (hR : R.Lawful) (less : α → α → Bool) (hl : R.less = some less) {x y : α}
+    (hh : R.hash x = R.hash y) (hne : R.equiv x y = false)
+    (hasym : ¬ (less x y = true ∧ less y x = true)) :
+    iter R (fromList R [x, y]) = iter R (fromList R [y, x]) ↔ (less x y = true ∨ less y x = true) :=
+  order_indep_pair_iff hR less hl hh hne hasym
+
+/-- both sides of the equivalence occur: `ordTies` leaves 0 and 3 unordered,
+`ordTotal` orders them -/
+example : ¬ iter Sample.ordTies (fromList Sample.ordTies [0, 3]) = iter Sample.ordTies (fromList Sample.ordTies [3, 0]) :=
+  fun h => absurd ((values_order_indep_pair_iff sample_ordTies_lawful _ rfl (by decide) (by decide) (by decide)).mp h)
+    (by decide)
+
+example : iter Sample.ordTotal (fromList Sample.ordTotal [0, 3]) = iter Sample.ordTotal (fromList Sample.ordTotal [3, 0]) :=
+  (values_order_indep_pair_iff sample_ordTotal_lawful _ rfl (by decide) (by decide) (by decide)).mpr (by decide)
 
 end SetSlice
 /-! ######################## end of SECTION «cty/set» ######################## -/
@@ -600,6 +624,240 @@ theorem equals_agrees_with_rawEquals_false : ¬ EqualsAgreesWithRawEquals := by
     (by decide +kernel)).mp c.2.2.2.2.2.2.2.2.2
   rw [c.2.2.2.2.2.2.2.2.1] at this
   cases this
+
+/-! ########################################################################
+### d03 — the audit of C03, closed item by item
+
+Everything below speaks about the same transliterations as above.  The new
+frontier is `Payload.intMember e p`: well-formed for `e`, wholly known, no mark
+at any depth, **every number an integer — at ANY precision** (an infinite
+family; no per-list `decide` is left to the caller).
+######################################################################## -/
+
+/-! #### "any two values that are equal have the same hash" — stated on the hash itself (audit item 3) -/
+
+/-- The clause, directly on `makeSetHashBytes` / `Value.Hash` (not through the
+totalised `ctyRules.hash`): two `Equals`-true admitted members have the same hash
+bytes and the same hash — as RESULTS of the two calls, whatever they are. -/
+theorem equal_values_same_hash_partial (t : Ty) (ns : List Num) (a b : Payload) (hw : t.wf = true)
+    (hp : t.plain = true) (hc : HashCoherentNums ns = true) (ha : a.member t ns = true) (hb : b.member t ns = true)
+    (h : equals ⟨t, a⟩ ⟨t, b⟩ = .ok (boolVal true)) :
+    hashBytes ⟨t, a⟩ = hashBytes ⟨t, b⟩ ∧ Value.hash ⟨t, a⟩ = Value.hash ⟨t, b⟩ := by
+  have sa := Member.spec (e := t) (ns := ns) ⟨a, ha⟩
+  have sb := Member.spec (e := t) (ns := ns) ⟨b, hb⟩
+  rw [equals_of_members hw hp sa.1 sa.2.1 sa.2.2.1 sb.1 sb.2.1 sb.2.2.1] at h
+  have hr : rawB t a b = true := by cases hq : rawB t a b <;> simp_all [boolVal]
+  have hbytes : hashBytes ⟨t, a⟩ = hashBytes ⟨t, b⟩ :=
+    hashBytesP_eq_of_rawB hp hc sa.1 sa.2.2.2 sb.1 sb.2.2.2 hr
+  exact ⟨hbytes, hash_eq_of_hashBytes_eq hbytes (by simp [Value.containsMarked, sa.2.2.1, sb.2.2.1])⟩
+
+/-- **All integers are hash-coherent** (missing theorem (b)): the side condition
+`HashCoherentNums` holds of every list of integers, whatever their precisions. -/
+theorem hash_coherent_ints (ns : List Num) (h : ns.all Num.isInt = true) : HashCoherentNums ns = true :=
+  hashCoherentNums_of_allInt ns h
+
+/-- …so for members all of whose numbers are integers the clause holds with no
+side condition left. -/
+theorem equal_values_same_hash_ints (t : Ty) (a b : Payload) (hw : t.wf = true) (hp : t.plain = true)
+    (ha : a.intMember t = true) (hb : b.intMember t = true)
+    (h : equals ⟨t, a⟩ ⟨t, b⟩ = .ok (boolVal true)) :
+    hashBytes ⟨t, a⟩ = hashBytes ⟨t, b⟩ ∧ Value.hash ⟨t, a⟩ = Value.hash ⟨t, b⟩ := by
+  obtain ⟨wa, ka, ma, ia⟩ := Payload.intMember_spec ha
+  obtain ⟨wb, kb, mb, ib⟩ := Payload.intMember_spec hb
+  rw [equals_of_members hw hp wa ka ma wb kb mb] at h
+  have hr : rawB t a b = true := by cases hq : rawB t a b <;> simp_all [boolVal]
+  have hbytes : hashBytes ⟨t, a⟩ = hashBytes ⟨t, b⟩ := hashBytesP_eq_of_rawB_ints hp wa ia wb ib hr
+  exact ⟨hbytes, hash_eq_of_hashBytes_eq hbytes (by simp [Value.containsMarked, ma, mb])⟩
+
+/-- the full-strength clause -/
+def EqualValuesSameHash : Prop :=
+  ∀ a b : Value, equals a b = .ok (boolVal true) → hashBytes a = hashBytes b
+
+theorem equal_values_same_hash_false : ¬ EqualValuesSameHash := by
+  intro h
+  have c := hash_incoherent_counterexample
+  have := h _ _ c.1
+  rw [c.2.1, c.2.2.1] at this
+  revert this
+  decide +kernel
+
+example : Payload.intMember (.tuple [.number, .list .string])
+    (.seq [.n (.fin false 1 70 53), .seq [.s "a", .null]]) = true := by decide +kernel
+
+/-- 2^70 as a float64, as a 512-bit parse, as a 64-bit integer: `Equals`, and hashed alike -/
+example : equals (numVal (.fin false 1 70 53)) (numVal (.fin false 1 70 512)) = .ok (boolVal true) ∧
+    hashBytes (numVal (.fin false 1 70 53)) = hashBytes (numVal (.fin false 1 70 512)) :=
+  ⟨by decide +kernel, (equal_values_same_hash_ints .number _ _ rfl rfl (by decide +kernel) (by decide +kernel)
+    (by decide +kernel)).1⟩
+
+/-! #### the defaults of `ctyRules` are not taken (audit item 4) -/
+
+/-- `ctyRules e` totalises `Hash`, `Equivalent` and `Less` (`| _ => 0`, `| _ =>
+false`).  On admitted members whose strings the model can quote
+(`Payload.quotable`: every rune in the modelled part of strconv's printable table)
+the totalisation is idle: `Value.Hash` RETURNS and `ctyRules.hash` is what it
+returns; `Equals` returns the known bool `ctyRules.equiv`.  So `Lawful.hash_eq`
+there is a statement about the real hash, not `0 = 0`. -/
+theorem cty_rules_are_the_real_functions (e : Ty) (hw : e.wf = true) (hp : e.plain = true) (a b : Payload)
+    (ha : a.intMember e = true) (hb : b.intMember e = true) (qa : a.quotable = true) :
+    (∃ bs, hashBytes ⟨e, a⟩ = .ok bs ∧ Value.hash ⟨e, a⟩ = .ok (crc32 bs)) ∧
+    Value.hash ⟨e, a⟩ = .ok ((ctyRules e).hash a) ∧
+    equals ⟨e, a⟩ ⟨e, b⟩ = .ok (boolVal ((ctyRules e).equiv a b)) := by
+  obtain ⟨wa, ka, ma, _⟩ := Payload.intMember_spec ha
+  obtain ⟨wb, kb, mb, _⟩ := Payload.intMember_spec hb
+  exact ⟨hash_ok hp wa ma qa, ctyRules_hash_real hp wa ma qa, ctyRules_equiv_real hw hp wa ka ma wb kb mb⟩
+
+example : Payload.quotable (.seq [.s "a\"\\\n é가", .null, .smap ["k"] [.s ""]]) = true := by decide +kernel
+
+/-! #### cty's rules are lawful on ALL integer-numbered members (audit item 3, missing theorem (b)) -/
+
+/-- the members, as a type -/
+def IntMember (e : Ty) : Type := { p : Payload // p.intMember e = true }
+
+/-- `setRules{e}` restricted to those members (the very functions of `ctyRules e`) -/
+def ctyRulesOnInts (e : Ty) : Rules (IntMember e) where
+  hash := fun p => (ctyRules e).hash p.1
+  equiv := fun a b => (ctyRules e).equiv a.1 b.1
+  less := (ctyRules e).less.map fun l a b => l a.1 b.1
+
+/-- **cty's `setRules` meet the contract of `cty/set`** on every well-formed,
+wholly known, mark-free member of a plain element type whose numbers are
+integers: no list of admitted numbers, no `decide` left to the caller. -/
+theorem cty_rules_lawful_ints (e : Ty) (hw : e.wf = true) (hp : e.plain = true) : (ctyRulesOnInts e).Lawful := by
+  have sp := fun a : IntMember e => Payload.intMember_spec a.2
+  have eqv : ∀ a b : IntMember e, (ctyRulesOnInts e).equiv a b = rawB e a.1 b.1 := fun a b =>
+    ctyRules_equiv_eq hw hp (sp a).1 (sp a).2.1 (sp a).2.2.1 (sp b).1 (sp b).2.1 (sp b).2.2.1
+  refine ⟨fun a => ?_, fun a b h => ?_, fun a b c h1 h2 => ?_, fun a b h => ?_⟩
+  · rw [eqv]; exact rawB_refl e a.1 hp (sp a).1
+  · rw [eqv] at h ⊢; rw [rawB_symm e b.1 a.1 hp (sp b).1 (sp a).1]; exact h
+  · rw [eqv] at h1 h2 ⊢; exact rawB_trans e a.1 b.1 c.1 hp (sp a).1 (sp b).1 (sp c).1 h1 h2
+  · rw [eqv] at h
+    exact ctyRules_hash_eq_ints hp a.2 b.2 h
+
+/-- **Value sets of such members refine mathematical sets** — `valueSet_refines`
+without its `HashCoherentNums` hypothesis: every history keeps the invariant (no
+two `Equals` members, each in the bucket of its hash), ends in the mathematical
+results, and answers every call as the mathematical sets dictate. -/
+theorem valueSet_refines_ints (e : Ty) (hw : e.wf = true) (hp : e.plain = true)
+    (ops : List (SetOp (IntMember e))) (st : List (SetImpl (IntMember e)))
+    (h : ∀ i, SetImpl.Inv (ctyRulesOnInts e) (SetImpl.getReg st i)) :
+    (∀ i, SetImpl.Inv (ctyRulesOnInts e) (SetImpl.getReg (SetImpl.runRegs (ctyRulesOnInts e) ops st).1 i)) ∧
+    SetImpl.absRegs (ctyRulesOnInts e) (SetImpl.runRegs (ctyRulesOnInts e) ops st).1 =
+      SetImpl.specRun (ctyRulesOnInts e) ops (SetImpl.absRegs (ctyRulesOnInts e) st) ∧
+    SetImpl.OutsOk (ctyRulesOnInts e) (SetImpl.absRegs (ctyRulesOnInts e) st) ops
+      (SetImpl.runRegs (ctyRulesOnInts e) ops st).2 :=
+  have hR := cty_rules_lawful_ints e hw hp
+  ⟨set_inv hR ops st h, set_refines hR ops st h⟩
+
+/-- …and building from any permutation of the same inputs gives the same
+mathematical set and the same length. -/
+theorem valueSet_built_order_indep_ints (e : Ty) (hw : e.wf = true) (hp : e.plain = true)
+    (l l' : List (IntMember e)) (hperm : l.Perm l') :
+    SetImpl.Inv (ctyRulesOnInts e) (SetImpl.fromList (ctyRulesOnInts e) l) ∧
+    (∀ y, SetImpl.abs (ctyRulesOnInts e) (SetImpl.fromList (ctyRulesOnInts e) l) y ↔
+      SetImpl.abs (ctyRulesOnInts e) (SetImpl.fromList (ctyRulesOnInts e) l') y) ∧
+    SetImpl.length (SetImpl.fromList (ctyRulesOnInts e) l) = SetImpl.length (SetImpl.fromList (ctyRulesOnInts e) l') :=
+  have hR := cty_rules_lawful_ints e hw hp
+  ⟨(set_inv_algebra hR SetImpl.empty SetImpl.empty).2.2.2.2 l, (set_built_order_indep hR l l' hperm).2.1,
+    (set_built_order_indep hR l l' hperm).2.2⟩
+
+/-! #### iteration order of sets of strings, bools, integers (missing theorem (a)) -/
+
+/-- `setRules.Less` **never fails** on unmarked well-formed members of a primitive
+element type (null and unknown members included) and is decided by the plain
+specification `primLessB`; `ctyRules.less` is what it returns. -/
+theorem setLess_total_prim (e : Ty) (he : e.isPrim = true) (x y : Payload) (wx : x.shaped e = true)
+    (wy : y.shaped e = true) (mx : x.containsMarked = false) (my : y.containsMarked = false) :
+    setLess e x y = .ok (primLessB e x y) ∧ (ctyRules e).less = some (ctyLessB e) ∧
+      ctyLessB e x y = primLessB e x y :=
+  ⟨setLess_prim he wx wy (not_isMarked_of_clean mx) (not_isMarked_of_clean my), rfl,
+    (ctyLessB_prim he wx wy mx my).2⟩
+
+/-- **`setRules.Less` is a strict order, total between inequivalent members**, on
+the admitted members of a primitive element type: the hypothesis of
+`values_order_indep_of_total`, discharged for cty's own rules. -/
+theorem cty_less_strict_total_prim (e : Ty) (he : e.isPrim = true) (l : List (IntMember e)) :
+    (ctyRulesOnInts e).less = some (fun a b => ctyLessB e a.1 b.1) ∧
+    SetImpl.StrictTotalOn (ctyRulesOnInts e) (fun a b => ctyLessB e a.1 b.1) l := by
+  have sp := fun a : IntMember e => Payload.intMember_spec a.2
+  have hl : ∀ a b : IntMember e, ctyLessB e a.1 b.1 = primLessB e a.1 b.1 := fun a b =>
+    (ctyLessB_prim he (sp a).1 (sp b).1 (sp a).2.2.1 (sp b).2.2.1).2
+  obtain ⟨hp, hw⟩ := Ty.isPrim_plain he
+  refine ⟨rfl, fun a _ => ?_, fun a _ b _ c _ h1 h2 => ?_, fun a _ b _ hne => ?_⟩
+  · rw [hl]; exact primLessB_irrefl he (sp a).1
+  · rw [hl] at h1 h2 ⊢; exact primLessB_trans he a.2 b.2 c.2 h1 h2
+  · rw [hl, hl]
+    have : (ctyRulesOnInts e).equiv a b = rawB e a.1 b.1 :=
+      ctyRules_equiv_eq hw hp (sp a).1 (sp a).2.1 (sp a).2.2.1 (sp b).1 (sp b).2.1 (sp b).2.2.1
+    rw [this] at hne
+    exact primLessB_total he a.2 b.2 hne
+
+/-- **Value-level iteration order.**  Two sets of strings, of bools or of integers
+(with or without a null member) that hold the same members — whatever the
+insertion order, bucket layout or history — iterate identically. -/
+theorem valueSet_iteration_order_indep_prim (e : Ty) (he : e.isPrim = true) {s1 s2 : SetImpl (IntMember e)}
+    (h1 : SetImpl.Inv (ctyRulesOnInts e) s1) (hperm : (SetImpl.values s1).Perm (SetImpl.values s2)) :
+    SetImpl.iter (ctyRulesOnInts e) s1 = SetImpl.iter (ctyRulesOnInts e) s2 := by
+  have h := cty_less_strict_total_prim e he (SetImpl.values s1)
+  simp only [SetImpl.iter, h.1]
+  exact values_order_indep_of_total _ h1 hperm h.2
+
+/-- …in particular sets built from the same pairwise different inputs in any order. -/
+theorem valueSet_insertion_order_indep_prim (e : Ty) (he : e.isPrim = true) {l l' : List (IntMember e)}
+    (hl : SetImpl.Inequiv (ctyRulesOnInts e) l) (hperm : l.Perm l') :
+    SetImpl.iter (ctyRulesOnInts e) (SetImpl.fromList (ctyRulesOnInts e) l) =
+      SetImpl.iter (ctyRulesOnInts e) (SetImpl.fromList (ctyRulesOnInts e) l') := by
+  have h := cty_less_strict_total_prim e he l
+  have hR := cty_rules_lawful_ints e (Ty.isPrim_plain he).2 (Ty.isPrim_plain he).1
+  simp only [SetImpl.iter, h.1]
+  exact values_order_indep_of_insertion hR _ hl hperm h.2
+
+/-! #### numbers: what of the trichotomy holds (audit item 2) -/
+
+/-- For ALL numbers (any precisions, infinities included): `<` and `>` are decided
+by the exact comparison, exclude each other, are each other's converse, and one
+of `<`, `>`, "equal in value" always holds. -/
+theorem lt_gt_exclusive (x y : Num) :
+    lessThan (numVal x) (numVal y) = .ok (boolVal (decide (Num.cmp x y < 0))) ∧
+    greaterThan (numVal x) (numVal y) = .ok (boolVal (decide (Num.cmp x y > 0))) ∧
+    ¬ (lessThan (numVal x) (numVal y) = .ok (boolVal true) ∧ greaterThan (numVal x) (numVal y) = .ok (boolVal true)) ∧
+    lessThan (numVal x) (numVal y) = greaterThan (numVal y) (numVal x) ∧
+    (lessThan (numVal x) (numVal y) = .ok (boolVal true) ∨ greaterThan (numVal x) (numVal y) = .ok (boolVal true) ∨
+      Num.cmp x y = 0) := by
+  have hs := NumCmp.cmp_swap x y
+  refine ⟨lessThan_num x y, greaterThan_num x y, ?_, ?_, ?_⟩
+  · rw [lessThan_num, greaterThan_num, boolVal_true_iff, boolVal_true_iff]
+    simp only [decide_eq_true_eq]; omega
+  · rw [lessThan_num, greaterThan_num, hs]
+    congr 2
+    simp only [decide_eq_decide]; omega
+  · rw [lessThan_num, greaterThan_num, boolVal_true_iff, boolVal_true_iff]
+    simp only [decide_eq_true_eq]; omega
+
+/-- **Trichotomy, where it holds**: exactly one of `<`, `=`, `>` — for every pair
+on which `rawNumberEqual` agrees with the exact comparison (a decidable
+condition; `trichotomy_counterexample` shows both ways of violating it). -/
+theorem trichotomy_partial (x y : Num) (h : Num.rawEqual x y = (Num.cmp x y == 0)) :
+    let l := lessThan (numVal x) (numVal y) = .ok (boolVal true)
+    let e := equals (numVal x) (numVal y) = .ok (boolVal true)
+    let g := greaterThan (numVal x) (numVal y) = .ok (boolVal true)
+    (l ∧ ¬ e ∧ ¬ g) ∨ (¬ l ∧ e ∧ ¬ g) ∨ (¬ l ∧ ¬ e ∧ g) := by
+  simp only [lessThan_num, greaterThan_num, equals_num, boolVal_true_iff, h, decide_eq_true_eq, beq_iff_eq]
+  omega
+
+/-- **All integers** (of any two precisions, e.g. 2^70 as a float64 and as a
+512-bit parse) satisfy the trichotomy. -/
+theorem trichotomy_ints (x y : Num) (hx : x.isInt = true) (hy : y.isInt = true) :
+    let l := lessThan (numVal x) (numVal y) = .ok (boolVal true)
+    let e := equals (numVal x) (numVal y) = .ok (boolVal true)
+    let g := greaterThan (numVal x) (numVal y) = .ok (boolVal true)
+    (l ∧ ¬ e ∧ ¬ g) ∨ (¬ l ∧ e ∧ ¬ g) ∨ (¬ l ∧ ¬ e ∧ g) :=
+  trichotomy_partial x y (isInt_coh hx hy)
+
+/-- the side condition also holds of non-integers, e.g. two float64 values; it is
+what fails for `w5f`/`w5p` and `w5f`/`w5c` -/
+example : Num.rawEqual w5f w4f = (Num.cmp w5f w4f == 0) ∧ Num.rawEqual w5f w5p ≠ (Num.cmp w5f w5p == 0) ∧
+    Num.rawEqual w5f w5c ≠ (Num.cmp w5f w5c == 0) := by decide +kernel
 
 end Values
 /-! ######################## end of SECTION «values» ######################## -/
